@@ -138,8 +138,12 @@ func parseCPUList(s string) ([]int, error) {
 		if b < a || b-a > 8192 {
 			return nil, fmt.Errorf("bad cpulist range %q", part)
 		}
-		for v := a; v <= b; v++ {
+		for v := a; ; v++ {
 			out = append(out, v)
+			if v == b {
+				// compare for equality: with b == math.MaxInt, "v <= b" never becomes false
+				break
+			}
 		}
 	}
 	return out, nil
